@@ -711,6 +711,18 @@ case("private module constants are inlined where they are not shadowed", '''
 ''', 0)
 
 
+case("strings are folded after private constants were written in", '''
+    _PREFIX = "start-group"
+    _SEP = "-"
+    def name(n):
+        return f"{_PREFIX}-{n}", _PREFIX + _SEP + str(n), f"{_PREFIX}{_SEP}"
+    def shadow(_PREFIX):
+        return f"{_PREFIX}-x"
+    def main():
+        return [name(3), shadow("p")]
+''', 0)
+
+
 def main():
     bad = 0
     for name, src, inlined in CASES:
